@@ -365,3 +365,63 @@ def runner_iteration_sites(idx, module_suffix="torch_tqdm"):
                     role, node = ("cond" if which == "cond_fun" else "body"), n
         out.append((f, role, node))
     return out
+
+
+def runner_transparency(idx, module_suffix="torch_tqdm"):
+    """The monitored loop runner only observes: the condition it hands to the inner while_loop must return exactly what the caller's
+    condition returns on the same state, on every path (an extra `return False` / `return True` -- say when the tracked error is below the
+    tolerance -- changes when every Krylov routine stops).  -> [(runner FuncInfo, ok | None, text, node)]"""
+    out = []
+    for f in idx.funcs_named("while_loop_winfo"):
+        if module_suffix and not f.module.name.endswith(module_suffix):
+            continue
+        holders = [f] + list(f.nested.values())
+        wl, owner = None, None
+        for g in holders:
+            for c in df.calls(g.node, into_nested=False):
+                if isinstance(c.func, ast.Name) and c.func.id == "while_loop":
+                    wl, owner = c, g
+        if wl is None:
+            out.append((f, None, "inner while_loop call not found", f.node))
+            continue
+        b = df.bind_call(wl, ["cond_fun", "body_fun", "init_val"])
+        user_cond = owner.params[0] if owner.params else None  # new_while(cond_fun, body_fun, init_val)
+        e = b.get("cond_fun")
+        g = None
+        delegate_names = {user_cond}
+        if isinstance(e, ast.Name):
+            h = owner
+            while h is not None and g is None:
+                g = h.nested.get(e.id)
+                h = h.parent
+            if g is None:
+                e = df.resolve_value(owner.node, e)
+        if g is None and isinstance(e, ast.Call):
+            r = idx.resolve_expr(owner.module, e.func, owner)
+            if r is not None and r.kind == "class" and "__call__" in r.val.methods:
+                g = r.val.methods["__call__"]
+                # which attribute of the instance holds the caller's condition: the constructor parameter that receives it
+                init = r.val.methods.get("__init__")
+                if init is not None:
+                    bb = df.bind_call(e, init.params, skip_first=True)
+                    for p, a in bb.items():
+                        if isinstance(a, ast.Name) and a.id == user_cond:
+                            for st in df.body_nodes(init.node):
+                                if isinstance(st, ast.Assign) and isinstance(st.targets[0], ast.Attribute) and isinstance(st.value, ast.Name) and st.value.id == p:
+                                    delegate_names.add("self." + st.targets[0].attr)
+        if isinstance(e, ast.Name) and e.id == user_cond and g is None:
+            out.append((f, True, "the caller's condition is handed to the inner loop unchanged", wl))
+            continue
+        if g is None:
+            out.append((f, None, "the condition handed to the inner loop is not a function or callable object of the runner", wl))
+            continue
+        state = g.params[-1] if g.params else None
+        rets = [r for r in df.returns(g.node) if r.value is not None]
+        bad = [r for r in rets if not (isinstance(r.value, ast.Call) and ast.unparse(r.value.func) in delegate_names and len(r.value.args) == 1 and ast.unparse(r.value.args[0]) == state)]
+        if not rets:
+            out.append((f, None, "the condition wrapper returns nothing", g.node))
+        elif bad:
+            out.append((f, False, f"the condition wrapper also returns `{ast.unparse(bad[0].value)[:40]}`: the loop stops (or goes on) where the caller's condition says otherwise", getattr(bad[0], "_origin", bad[0])))
+        else:
+            out.append((f, True, f"every exit of the condition wrapper returns the caller's condition on the state ({len(rets)} exit(s))", g.node))
+    return out
